@@ -277,6 +277,8 @@ func (a *stallAction) Do(e *pipeline.Event) pipeline.ActionResult {
 }
 
 type run struct {
+	holdFrom  int           // >0: sends carrying an id >= holdFrom block until holdCh is closed
+	holdCh    chan struct{}
 	p         *pipeline.Pipeline
 	mu        sync.Mutex
 	delivered map[int]int // id -> times
@@ -298,6 +300,17 @@ func (r *run) Stop() {
 func (r *run) Out(e *pipeline.Event) { r.batcher.Add(e) }
 
 func (r *run) send(_ *pipeline.WorkerData, b *pipeline.Batch) error {
+	if r.holdFrom > 0 {
+		held := false
+		b.ForEach(func(e *pipeline.Event) {
+			if n := e.Root.Dig("id"); n != nil && n.AsInt() >= r.holdFrom {
+				held = true
+			}
+		})
+		if held {
+			<-r.holdCh
+		}
+	}
 	r.mu.Lock()
 	b.ForEach(func(e *pipeline.Event) {
 		if n := e.Root.Dig("id"); n != nil {
@@ -314,7 +327,11 @@ func (r *run) send(_ *pipeline.WorkerData, b *pipeline.Batch) error {
 }
 
 func startRun(c *Case, w *world, offsetsFile string) (*run, error) {
-	r := &run{delivered: map[int]int{}, ackCh: make(chan struct{}, 1)}
+	return startRunHold(c, w, offsetsFile, 0)
+}
+
+func startRunHold(c *Case, w *world, offsetsFile string, holdFrom int) (*run, error) {
+	r := &run{delivered: map[int]int{}, ackCh: make(chan struct{}, 1), holdFrom: holdFrom, holdCh: make(chan struct{})}
 	settings := fdkit.DefaultSettings()
 	settings.Capacity = 32
 	settings.MaintenanceInterval = time.Hour
@@ -627,3 +644,166 @@ waitCrash:
 var prop = vkit.NewProp([]string{P}, "c03crash", gen, runCase)
 
 func TestC03CrashRestart(t *testing.T) { prop.CrashFile = true; prop.Check(t) }
+
+// ------------------------------------------------------------------ truncation while events are un-acknowledged
+
+// TruncCase: one run, write notifications on. Phase A lines are read; the acknowledgement of the
+// last Held of them is withheld; the file is truncated; the acknowledgements are released; phase B
+// lines are appended. "After a truncation file.d keeps running, starts the file over and delivers
+// everything written after the truncation."
+type TruncCase struct {
+	PhaseA    []Line `json:"phase_a"`
+	Held      int    `json:"held"` // acknowledgements of the last Held phase-A lines are withheld across the truncation
+	ReleaseMs int    `json:"release_ms"` // pause between truncation and release of the acknowledgements
+	GapMs     int    `json:"gap_ms"`     // pause between release and phase B
+	PhaseB    []Line `json:"phase_b"`
+	Workers   int    `json:"workers"`
+	BatchCount int   `json:"batch_count"`
+	ReadBuf   int    `json:"read_buf"`
+}
+
+func genTrunc(t *rapid.T) TruncCase {
+	c := TruncCase{
+		Workers:    rapid.IntRange(1, 3).Draw(t, "workers"),
+		BatchCount: rapid.IntRange(1, 3).Draw(t, "batch_count"),
+		ReadBuf:    rapid.SampledFrom([]int{64, 4096, 131072}).Draw(t, "read_buf"),
+		ReleaseMs:  rapid.SampledFrom([]int{150, 250}).Draw(t, "release_ms"),
+		GapMs:      rapid.SampledFrom([]int{0, 5, 60}).Draw(t, "gap_ms"),
+	}
+	ns := rapid.IntRange(1, 3).Draw(t, "nstreams")
+	id := 1
+	na := rapid.IntRange(1, 8).Draw(t, "na")
+	for i := 0; i < na; i++ {
+		c.PhaseA = append(c.PhaseA, Line{ID: id, Stream: streamNames[rapid.IntRange(0, ns-1).Draw(t, "sa")]})
+		id++
+	}
+	c.Held = rapid.IntRange(0, min(3, na)).Draw(t, "held")
+	nb := rapid.IntRange(1, 8).Draw(t, "nb")
+	for i := 0; i < nb; i++ {
+		c.PhaseB = append(c.PhaseB, Line{ID: id, Stream: streamNames[rapid.IntRange(0, ns-1).Draw(t, "sb")]})
+		id++
+	}
+	return c
+}
+
+func runTrunc(c TruncCase) *vkit.Outcome {
+	o := vkit.NewOutcome()
+	dir, err := os.MkdirTemp(tmpBase(), "verif-c03t-")
+	if err != nil {
+		panic(err)
+	}
+	defer os.RemoveAll(dir)
+	w := &world{dir: dir, logs: filepath.Join(dir, "logs"), written: map[int]int{}, gen: map[int]int{}, lineGen: map[int]int{}, lineIno: map[int]uint64{}, lineStr: map[int]string{}}
+	_ = os.MkdirAll(w.logs, 0o755)
+	fdkit.TakeLoggedPanics()
+	fdkit.SetPanicCapture(true)
+	defer fdkit.SetPanicCapture(false)
+	cc := &Case{Files: 1, WatchWrites: true, Workers: c.Workers, BatchCount: c.BatchCount, FlushMs: 1, ReadBuf: c.ReadBuf}
+	holdFrom := 0
+	if c.Held > 0 {
+		holdFrom = c.PhaseA[len(c.PhaseA)-c.Held].ID
+	}
+	r, err := startRunHold(cc, w, filepath.Join(dir, "offsets.yaml"), holdFrom)
+	if err != nil {
+		o.Failf(P, "config-rejected", "%v", err)
+		return o
+	}
+	waitFor := func(ids []int, what string) bool {
+		lastProgress, lastMissing := time.Now(), -1
+		for {
+			r.mu.Lock()
+			missing := 0
+			for _, id := range ids {
+				if r.delivered[id] == 0 {
+					missing++
+				}
+			}
+			r.mu.Unlock()
+			if missing == 0 {
+				return true
+			}
+			if missing != lastMissing {
+				lastMissing, lastProgress = missing, time.Now()
+			}
+			if time.Since(lastProgress) > 10*time.Second {
+				return false
+			}
+			time.Sleep(3 * time.Millisecond)
+		}
+	}
+	w.apply(Step{Op: "append", File: 0, Lines: c.PhaseA}, true)
+	var early []int
+	for _, l := range c.PhaseA {
+		if holdFrom == 0 || l.ID < holdFrom {
+			early = append(early, l.ID)
+		}
+	}
+	// every phase-A line whose acknowledgement is not withheld must arrive (batches are cut so that a
+	// withheld line may hold back earlier lines of its batch: wait only while progress is possible)
+	if holdFrom == 0 {
+		if !waitFor(early, "phase A") {
+			o.Class("phase-a-not-delivered")
+		}
+	} else {
+		time.Sleep(120 * time.Millisecond) // phase A is read (notification + maintenance 25 ms), acknowledgements withheld
+	}
+	w.apply(Step{Op: "truncate", File: 0}, true)
+	time.Sleep(time.Duration(c.ReleaseMs) * time.Millisecond)
+	close(r.holdCh)
+	if c.GapMs > 0 {
+		time.Sleep(time.Duration(c.GapMs) * time.Millisecond)
+	}
+	w.apply(Step{Op: "append", File: 0, Lines: c.PhaseB}, true)
+	var late []int
+	for _, l := range c.PhaseB {
+		late = append(late, l.ID)
+	}
+	ok := waitFor(late, "phase B")
+	// known-finding class: the ignore-after-truncation boundary (ignoreEventsLE) is a job-wide number
+	// compared with PER-STREAM sequence ids, so it is only right for single-stream files
+	streamSet := map[string]bool{}
+	for _, l := range append(append([]Line{}, c.PhaseA...), c.PhaseB...) {
+		streamSet[l.Stream] = true
+	}
+	multi := ""
+	if len(streamSet) >= 2 && c.Held > 0 {
+		multi = ":multi-stream"
+	}
+	panics := fdkit.TakeLoggedPanics()
+	if len(panics) > 0 {
+		first := panics[0]
+		if i := strings.IndexByte(first, '\n'); i > 0 {
+			first = first[:i]
+		}
+		o.Failf(P, "ended-itself-after-truncation"+multi, "file.d ended itself after a truncation (the promise is that it keeps running): %s", first)
+		return o
+	}
+	r.stop()
+	if !ok {
+		r.mu.Lock()
+		var miss []int
+		for _, id := range late {
+			if r.delivered[id] == 0 {
+				miss = append(miss, id)
+			}
+		}
+		r.mu.Unlock()
+		sig := "post-truncation-line-lost"
+		if c.Held > 0 {
+			sig += ":acks-pending-at-truncation"
+		}
+		sig += multi
+		o.Failf(P, sig, "lines %v written after the truncation were never delivered (phase A %d lines, %d acknowledgements withheld across the truncation, release after %d ms, gap %d ms)", miss, len(c.PhaseA), c.Held, c.ReleaseMs, c.GapMs)
+	}
+	if c.Held > 0 {
+		o.Class("acks-pending-at-truncation")
+		o.Nontrivial(P)
+	} else {
+		o.Class("quiescent-truncation")
+	}
+	return o
+}
+
+var propTrunc = vkit.NewProp([]string{P}, "c03trunc", genTrunc, runTrunc)
+
+func TestC03Truncation(t *testing.T) { propTrunc.CrashFile = true; propTrunc.Check(t) }
